@@ -363,10 +363,96 @@ def check_rows(c, rec):
     image.close()
 
 
+# ------------------------------------------------------------------------------ failed renders keep the size setting
+
+@st.composite
+def fail_cases(draw):
+    c = draw(geom())
+    c["ow"], c["oh"] = draw(st.integers(1, 30)), draw(st.integers(1, 30))
+    c["mode"] = draw(st.sampled_from(["FIT", "AUTO", "ORIGINAL", "FIT_TO_WIDTH"]))
+    c["fail"] = draw(st.sampled_from(["missing_file", "unreadable_file", "closed", "convert"]))
+    c["entry"] = draw(st.sampled_from(["str", "format", "draw", "iter"]))
+    c["resize"] = [draw(st.integers(1, 100)), draw(st.integers(1, 50))]
+    return c
+
+
+def check_failed_render(c, rec):
+    """A render that fails (source file gone/unreadable, finalized image, unconvertible mode) must leave a
+    dynamic size dynamic: afterwards the size still follows the terminal."""
+    import io
+    import os
+    import sys
+    import tempfile
+
+    from PIL import Image
+
+    apply_cfg(c)
+    cls = I.BlockImage if c["family"] == "block" else I.KittyImage
+    S = I.Size
+    path = None
+    if c["fail"] in ("missing_file", "unreadable_file"):
+        fd, path = tempfile.mkstemp(suffix=".png", prefix="vf-c04-")
+        os.close(fd)
+        Image.new("RGB", (c["ow"], c["oh"]), (1, 2, 3)).save(path)
+        image = cls.from_file(path)
+    elif c["fail"] == "convert":
+        image = cls(Image.new("La", (c["ow"], c["oh"])))  # cannot be converted to RGB(A): RenderError
+    else:
+        image = make(c)
+    try:
+        image.size = S[c["mode"]]
+        if c["fail"] == "missing_file":
+            os.remove(path)
+        elif c["fail"] == "unreadable_file":
+            with open(path, "wb") as f:
+                f.write(b"not an image")
+        elif c["fail"] == "closed":
+            image.close()
+        real = sys.stdout
+        sys.stdout = io.StringIO()
+        try:
+            if c["entry"] == "str":
+                str(image)
+            elif c["entry"] == "format":
+                format(image, "1.1")
+            elif c["entry"] == "draw":
+                image.draw()
+            else:
+                iter(image)
+            failed = None
+        except Exception as e:
+            failed = e
+        finally:
+            sys.stdout = real
+        if failed is None and c["entry"] != "iter":
+            raise Violation(f"{c['entry']} of an image whose source is {c['fail']} did not fail", {"kind": "no_failure"})
+        if image.size is not S[c["mode"]]:
+            raise Violation(f"a failed {c['entry']} ({c['fail']}: {type(failed).__name__}) changed the dynamic size setting "
+                            f"Size.{c['mode']} to {image.size!r}", {"kind": "size_changed_by_failed_render", "fail": c["fail"]})
+        if c["fail"] != "closed":
+            cols, rows = c["resize"]
+            env.apply(cols=cols, rows=rows)
+            cur = dict(c, cols=cols, rows=rows)
+            g = R.Geometry(c["family"], c["ow"], c["oh"], c["cell"], c["ratio"])
+            results = {}
+            if c["mode"] == "AUTO":
+                probe = make(c)
+                for m in ("ORIGINAL", "FIT"):
+                    results[m] = compute(probe, m, [0, -2], None)
+            check_size_result(cur, image.rendered_size, c["mode"], [0, -2], cols, rows, None, g, rec, results)
+    finally:
+        image.close()
+        if path and os.path.exists(path):
+            os.remove(path)
+    rec.label(f"fail:{c['fail']}", f"entry:{c['entry']}")
+    rec.nontriv([c["family"], c["mode"], c["fail"], c["entry"]])
+
+
 CLAUSES = [
     Clause("pure", check_pure, pure_cases, budget={"quick": 20000, "thorough": 1500000},
            floors={"rounding": 0.2, "mode:AUTO": 0.08, "mode:FIT": 0.08}),
     Clause("history", check_history, histories, budget={"quick": 2000, "thorough": 50000},
            floors={"changed_after_fixed": 0.2}),
     Clause("urwid_rows", check_rows, rows_cases, budget={"quick": 800, "thorough": 20000}),
+    Clause("failed_render", check_failed_render, fail_cases, budget={"quick": 200, "thorough": 4000}),
 ]
